@@ -41,7 +41,9 @@ RResult(c) ==
         L == CASE c.task = "mandy_cm" -> LeavesCM(x, c.phi)
                [] c.task = "mandy_fm" -> LeavesFM(x, c.phi, c.addone)
                [] OTHER -> LeavesGeneral(x, c.basis)
-    IN  [x |-> x, y |-> y, leaves |-> L,
+        \* complex right-hand sides for the MANDy tasks with an even seed (Xi^T Psi = y is bilinear: no conjugation anywhere)
+        yim == IF c.task # "arr" /\ c.seed % 2 = 0 THEN YData(c.seed + 3, Len(y), c.m) ELSE [i \in 1..Len(y) |-> [j \in 1..c.m |-> 0]]
+    IN  [x |-> x, y |-> y, yim |-> yim, leaves |-> L,
          guess |-> IF c.task = "arr"
                    THEN FillCores("real", c.seed + 5, [rd |-> [k \in 1..Len(c.basis) |-> Len(c.basis[k])],
                                                        cd |-> [k \in 1..Len(c.basis) |-> 1],
